@@ -15,6 +15,7 @@ import (
 	"os/exec"
 	"path/filepath"
 	"regexp"
+	"runtime"
 	"sort"
 	"strings"
 	"time"
@@ -100,6 +101,9 @@ type Result struct {
 	Deviated []int        `json:"deviated,omitempty"`
 	Events   []string     `json:"-"`
 	Seen     map[int]int  `json:"-"` // site -> largest map seen in this run
+	// Stragglers: goroutines started by the generator were still running when it returned.
+	Stragglers bool   `json:"stragglers,omitempty"`
+	LateWrite  string `json:"late_write,omitempty"` // a file changed after the generator had returned
 }
 
 // runDirRe strips the per-execution scratch directory (its number depends on how
@@ -124,6 +128,7 @@ func RunInProcess(inv Invocation, inDir, outDir string, s Sched, root string) (r
 	simos.CLIMode = false
 	simos.Ambient, verifhook.Ambient = s.Ambient, s.Ambient
 	simos.Reset(s.FaultAt, s.Kind, s.TornNum, s.TornDen)
+	goroutinesBefore := runtime.NumGoroutine()
 	func() {
 		defer func() {
 			if r := recover(); r != nil {
@@ -139,6 +144,18 @@ func RunInProcess(inv Invocation, inDir, outDir string, s Sched, root string) (r
 			res.Err = e.Error()
 		}
 	}()
+	// a generator that returns while goroutines it started are still at work: wait for them (they would
+	// otherwise draw from the next run's tape) and note whether they still changed files
+	if runtime.NumGoroutine() > goroutinesBefore {
+		res.Stragglers = true
+		atReturn := Snapshot(outDir)
+		for i := 0; i < 300 && runtime.NumGoroutine() > goroutinesBefore; i++ {
+			time.Sleep(time.Millisecond)
+		}
+		if n, c, _ := DiffSnap(atReturn, Snapshot(outDir)); n != "" {
+			res.LateWrite = n + " " + c
+		}
+	}
 	if simos.Dead {
 		res.Crashed = true
 	}
